@@ -365,9 +365,8 @@ async fn start_server(
     .await?;
     let new_tasks_and_queues = if let Some(restorer) = restorer {
         let mut state = state_ref.get_mut();
-        let ra = &senders.server_control;
         state.restore_state(&restorer);
-        Some(restorer.restore_jobs_and_queues(&mut state, ra)?)
+        Some(restorer.restore_jobs_and_queues(&mut state, &senders)?)
     } else {
         None
     };
